@@ -175,7 +175,7 @@ type SV struct {
 	clo *closure
 	rng *SV // range iterator operand
 	chanKey string // provenance of a channel value loaded from a struct field (for channel invariants)
-	content *Term // spec-function slice parameter: contents as an SMT array (index = off+i)
+	contents []*Term // spec-function slice parameter: contents, one SMT array per element leaf (index = off+i)
 }
 
 type closure struct {
